@@ -214,6 +214,17 @@ func (s *clientSocket) registerSubEvents() {
 			if !s.manager.connected() {
 				return
 			}
+			if s.state != clientSocketConnStateDisconnected {
+				// The close handler of the previous connection is late (the handlers of an event
+				// run on a goroutine of their own). The end of that connection is reported
+				// here, before the socket connects again, and not by the close handler when it
+				// finally runs (see `onConnectionClose`): the disconnect handlers would run after
+				// the connect handlers of this connection.
+				reason, _ := s.manager.lastCloseReason.Load().(Reason)
+				s.packetRunner.add(func() {
+					s.disconnectHandlers.forEach(func(handler *ClientSocketDisconnectFunc) { (*handler)(reason) }, false)
+				})
+			}
 			s.state = clientSocketConnStateConnectPending
 			s.closeReported = false
 			s.connectSentEpoch = epoch
@@ -225,7 +236,7 @@ func (s *clientSocket) registerSubEvents() {
 			}
 		}
 		closeFunc ManagerCloseFunc = func(reason Reason, err error) {
-			s.onClose(reason)
+			s.onConnectionClose(reason, true)
 		}
 	)
 
@@ -1081,16 +1092,29 @@ func (s *clientSocket) destroy() {
 	s.manager.destroy(s)
 }
 
-func (s *clientSocket) onClose(reason Reason) {
+func (s *clientSocket) onClose(reason Reason) { s.onConnectionClose(reason, false) }
+
+// `managerEvent`: whether this is the close event of the manager (see `registerSubEvents`).
+func (s *clientSocket) onConnectionClose(reason Reason, managerEvent bool) {
 	s.debug.Log("Going to close the socket. Reason", reason)
 
 	// The end of a connection can be noticed by more than one goroutine (for example,
 	// a DISCONNECT packet and the close of the transport). Report it once.
 	s.stateMu.Lock()
+	if managerEvent && s.state != clientSocketConnStateDisconnected && s.connectSentEpoch == s.manager.connEpoch.Load()+1 {
+		// The manager has established the next connection by now, and the socket has sent its
+		// CONNECT packet with it. The state of the socket is the one of the new connection,
+		// and the end of the old connection was reported then (see `openFunc`).
+		s.stateMu.Unlock()
+		return
+	}
 	alreadyReported := s.closeReported
 	s.closeReported = true
 	s.state = clientSocketConnStateDisconnected
-	s.stateMu.Unlock()
+	// What follows is done while the mutex is held. The socket can connect again (with the next
+	// connection) as soon as the mutex is released: the ID must not be cleared, and the
+	// disconnect handlers must not be queued, after that.
+	defer s.stateMu.Unlock()
 	if alreadyReported {
 		return
 	}
